@@ -262,6 +262,10 @@ func (x *Exec) EnableFeasibility(solver string) error {
 }
 
 func (x *Exec) Close() {
+	if x.enum != nil {
+		x.enum.Close()
+		x.enum = nil
+	}
 	if x.feas != nil {
 		x.feas.Close()
 	}
